@@ -1,5 +1,5 @@
 """C01 - WebSocket messages arrive intact, exactly once and in order."""
-from harness.core import Violation, run_hypothesis, dec
+from harness.core import Violation, run_hypothesis, dec, exc_key
 
 DESCRIPTION = {
     "level": "exploration",
@@ -9,7 +9,7 @@ DESCRIPTION = {
              "a send interleaving and a read schedule.  Each case runs under four schedules (drawn splits, all-at-once, byte-wise/odd-chunk, and bursts of several reads per event-loop turn). "
              "Oracle: receiver onMessage log == sent list per direction; the octets each side wrote parse under an independent strict RFC 6455 "
              "parser and reassemble (independent inflater when compressed) to the sent messages; schedules agree.  Compression settings include requested window sizes and context-takeover flags on both sides, and payloads of kind 'dup' (prefixes of one incompressible stream) make later messages refer back over 600-20000 octets.  Non-trivial = a boundary "
-             "length, a fragmented message, a split inside a frame header, or frames coalesced with the handshake; distinct by digest of the case."),
+             "length, a fragmented message, a split inside a frame header, or frames coalesced with the handshake; distinct by digest of the case. Enumerated in addition: the streaming API used across event-loop turns - a frame announced with beginMessageFrame(L) is open (0, 1, L/2 or L-1 octets sent) when one or two pings of the peer arrive and are answered automatically: the sender's octets must remain a well-formed frame sequence, the peer gets the message and the pongs."),
     "assumptions": [
         "transport contract emulated in memory (Twisted ITransport / asyncio.Transport); real kernels and TLS are out of scope",
         "option combinations that cannot interoperate by design (client not masking vs server requiring masks; applyMask differing) are not generated",
@@ -27,6 +27,7 @@ def plan(tier, seed):
         for sh in range(shards):
             jobs.append({"func": "pairs", "fw": fw, "nvx": "1" if sh % 2 == 0 else "0", "name": "pairs/%s/%d" % (fw, sh),
                          "args": {"seed": seed * 1000 + sh + (100 if fw == "asyncio" else 0), "n": n, "big": big}})
+        jobs.append({"func": "stream_interleaved", "fw": fw, "name": "stream_interleaved/" + fw, "args": {}})
     return jobs
 
 
@@ -122,6 +123,78 @@ def pairs(col, seed, n, big):
     run_hypothesis(col, "pairs", strategy(big), body, n, seed)
 
 
+def stream_interleaved_one(col, c):
+    """streaming API used across event-loop turns (a producer sending a frame piece by piece): while a frame announced with beginMessageFrame(L) is
+    still open, the peer's ping arrives and is answered automatically.  What the sender writes must still be a well-formed frame sequence, the
+    peer gets the message intact and exactly one pong with the ping's payload"""
+    from checks import wsdrive
+    from harness import ref6455
+    role, L, k, npings = c["role"], c["len"], c["sent_before"], c["pings"]
+    case = {"seed": 1, "copts": {}, "sopts": {}, "compress": False, "msgs": [[], []], "order": [], "schedule": []}
+    r = wsdrive.PairRun(case, "all")
+    try:
+        r.run()
+        o = 0 if role == "client" else 1
+        me, peer = r.sides[o], r.sides[1 - o]
+        payload = wsdrive.pattern(L, 5)
+        before = len(bytes(r.pipe.delivered[o])) + len(r.pipe.buf[o])
+
+        def first():
+            me.proto.beginMessage(True)
+            me.proto.beginMessageFrame(L)
+            if k:
+                me.proto.sendMessageFrameData(payload[:k])
+        r.d.call(first)
+        r.d.settle()
+        for j in range(npings):
+            r.d.call(peer.proto.sendPing, b"hb%d" % j)
+            r.pipe.step(1 - o, None)        # the ping reaches the sender while its frame is open; it answers
+        r.d.settle()
+
+        def rest():
+            me.proto.sendMessageFrameData(payload[k:])
+            me.proto.endMessage()
+        r.d.call(rest)
+        r.pipe.run()
+        r.d.settle()
+        r.pipe.run()
+        raw = bytes(r.pipe.delivered[o])
+        body = raw[raw.find(b"\r\n\r\n") + 4:]
+        frames, rest_ = ref6455.parse_frames(body)
+        probs = [] if rest_ else ref6455.wire_problems(frames, o == 0, compression=False, expect_masked=(o == 0))
+        data = [f for f in frames if f.opcode in (0, 1, 2)]
+        pongs = [f for f in frames if f.opcode == 10]
+        ok_wire = not rest_ and not probs and len(data) >= 1 and b"".join((ref6455.xor_mask(f.payload, f.mask) if False else f.payload) for f in data) == payload and \
+            [f.payload for f in pongs] == [b"hb%d" % j for j in range(npings)]
+        got = peer.msgs()
+        got_pongs = [e[1] for e in peer.log if e[0] == "pong"]
+        if not ok_wire or got != [(True, payload)] or got_pongs != [b"hb%d" % j for j in range(npings)]:
+            col.finding("C01|stream-api|control-frame-written-inside-open-frame",
+                        "%s sender, frame of %d octets, %d sent when %d ping(s) arrived: wire well-formed=%s (%s), peer got %d message(s) %r and pongs %r; peer close events %r" % (
+                            role, L, k, npings, ok_wire, (probs or [rest_[:20]])[:2], len(got), [(b, len(p_)) for b, p_ in got[:3]], got_pongs, [e for e in peer.log if e[0] == "close"]),
+                        dict(c, check="stream_interleaved"))
+        for s_ in r.sides:
+            if s_.ep.escaped:
+                col.finding("C01|stream-api|exception-escaped|" + exc_key(s_.ep.escaped[0]), repr(s_.ep.escaped[0]), dict(c, check="stream_interleaved"))
+    finally:
+        r.close()
+
+
+def stream_interleaved(col):
+    n = 0
+    for role in ("client", "server"):
+        for L in (1, 2, 10, 125, 126, 200, 70000):
+            for k in sorted(set([0, 1, L // 2, L - 1])):
+                if k >= L and L > 0 and k != 0:
+                    continue
+                for npings in (1, 2):
+                    c = {"role": role, "len": L, "sent_before": k, "pings": npings}
+                    stream_interleaved_one(col, c)
+                    n += 1
+                    col.case(True, enum=True, cls=["stream-interleaved/" + role], sample=c if n % 9 == 1 else None)
+    col.exhaustive.append("C01 streaming API with a peer ping arriving while a frame is open: 2 roles x 7 frame lengths x octets already sent {0,1,L/2,L-1} x {1,2} pings")
+
+
 def summarize(case):
     return {"copts": case["copts"], "sopts": case["sopts"], "compress": case["compress"],
             "client_msgs": [(m["len"], "bin" if m["bin"] else "text", m["api"], m.get("frag") or m.get("cuts") or "") for m in case["msgs"][0]],
@@ -132,6 +205,10 @@ def summarize(case):
 def replay(col, case):
     case = dec(case)
     c = case.get("case", case)
+    if c.get("check") == "stream_interleaved":
+        stream_interleaved_one(col, c)
+        col.case()
+        return
     if isinstance(c.get("msgs"), tuple):
         c["msgs"] = list(c["msgs"])
     check_case(c)
